@@ -91,6 +91,7 @@ Proof.
   intros Hb. unfold parse_2829.
   destruct (negb (dc =? 0) && negb (dc =? 4)); [exists b; split; [reflexivity | exact Hb]|].
   destruct (Nat.ltb (length i) 3); [exists b; split; [reflexivity | exact Hb]|].
+  destruct (triplet_dec i) as [tr|]; [|exists b; split; [reflexivity | exact Hb]].
   match goal with |- context [(pkt =? 28) && ?c] => destruct ((pkt =? 28) && c) end; [exists b; split; [reflexivity | exact Hb]|].
   assert (Hd : len96 (pb_cd b)) by (destruct Hb as (_ & H & _); exact H).
   destruct (pkt =? 28).
